@@ -5,5 +5,5 @@ Require Import ExtrOcamlBasic.
 From EPD Require Import Iface Ops Hal Run Panels.
 Extraction Language OCaml.
 Separate Extraction
-  Iface.bapply Iface.calls Ops.op Ops.mkFeat Hal.expand Hal.den Run.call Run.construct Run.icalls_of
+  Iface.bapply Iface.calls Ops.op Ops.mkFeat Hal.expand Hal.mk_cfg Hal.den Run.call Run.construct Run.icalls_of
   Panels.driver_of Panels.all_panels.
